@@ -1,4 +1,6 @@
 mod backend;
+mod gen;
+mod lockstep;
 mod ops;
 mod probe;
 mod rng;
@@ -7,7 +9,9 @@ use std::env;
 
 fn main() {
     // panics are caught and reported as results; keep stderr quiet
-    std::panic::set_hook(Box::new(|_| {}));
+    if env::var("CFBH_SHOW_PANICS").is_err() {
+        std::panic::set_hook(Box::new(|_| {}));
+    }
     let args: Vec<String> = env::args().collect();
     let cmd = args.get(1).map(|s| s.as_str()).unwrap_or("");
     match cmd {
@@ -29,6 +33,28 @@ fn main() {
                 }
             }
             std::process::exit(if fails > 0 { 1 } else { 0 });
+        }
+        "lockstep" => {
+            // cfbh lockstep <profile> <seed> <count> <outfile>
+            let prof = gen::profile(&args[2]);
+            let seed: u64 = args[3].parse().unwrap();
+            let count: usize = args[4].parse().unwrap();
+            let n = lockstep::run(prof, seed, count, &args[5]);
+            eprintln!("lockstep: wrote {} histories", n);
+        }
+        "uptable" => {
+            // every scalar value whose CFB upper-casing is not the identity
+            let mut n = 0u32;
+            for cp in 0u32..=0x10FFFF {
+                if let Some(c) = char::from_u32(cp) {
+                    let u = cfb::verif::verif_uppercase(c);
+                    if u != c {
+                        println!("{} {}", cp, u as u32);
+                        n += 1;
+                    }
+                }
+            }
+            eprintln!("uptable: {} non-identity entries", n);
         }
         _ => {
             eprintln!("usage: cfbh <probe|...>");
